@@ -5,7 +5,7 @@ import glob, json, os, re, sys
 V = os.path.dirname(os.path.dirname(os.path.abspath(__file__)))
 res = {}
 order = []
-for f in sorted(glob.glob(os.path.join(V, 'seeded/results/*.log')), key=os.path.getmtime):
+for f in sorted(glob.glob(os.path.join(V, 'seeded/results/*.log'))):  # numbered: later logs override earlier ones
     cur = None
     for line in open(f, errors='replace'):
         m = re.match(r'^(\S+)\s+(C\d\d) exit=(\d+) (\d+)s (\S+)', line)
@@ -37,6 +37,16 @@ for name in order:
     if name in DROPPED:
         r['verdict'] = 'dropped'; r['how'] = DROPPED[name]
     rows.append((r['prop'], name, kind, r['verdict'], r['how'], what))
+if '--write-meta' in sys.argv:
+    for p_, n, k, v, h, w in rows:
+        if n.startswith('seeded/'):
+            mp = os.path.join(V, n, 'meta.json')
+            if os.path.exists(mp):
+                m = json.load(open(mp))
+                m['check'] = './check %s quick' % p_
+                m['check_verdict'] = v.lower()
+                m['first_violation_reported'] = h
+                json.dump(m, open(mp, 'w'), indent=1)
 rows.sort(key=lambda x: (x[0], x[2], x[1]))
 print('| prop | change | kind | verdict | first violation reported (scenario: class / key) |')
 print('|------|--------|------|---------|--------------------------------------------------|')
